@@ -391,6 +391,8 @@ static int processAndInsertNode(KSI_TreeBuilder *builder, KSI_TreeNode *node) {
 		if (tmp != NULL) {
 			res = KSI_TreeNode_join(builder->ctx, builder->hsr, tmp, localRoot == NULL ? node : localRoot, &localRoot);
 			if (res != KSI_OK) goto cleanup;
+			/* The processor's node is a part of the local root now. */
+			tmp = NULL;
 		}
 	}
 
@@ -402,6 +404,18 @@ static int processAndInsertNode(KSI_TreeBuilder *builder, KSI_TreeNode *node) {
 cleanup:
 
 	KSI_TreeNode_free(tmp);
+
+	if (res != KSI_OK) {
+		/* Release what the leaf processors have built on top of the node; the node itself stays with the caller. */
+		while (localRoot != NULL && localRoot != node) {
+			KSI_TreeNode *next = localRoot->rightChild;
+
+			localRoot->rightChild = NULL;
+			if (next != NULL) next->parent = NULL;
+			KSI_TreeNode_free(localRoot);
+			localRoot = next;
+		}
+	}
 
 	return res;
 }
